@@ -589,3 +589,45 @@ def scaled(rng: random.Random, count: int) -> list[tuple[str, object]]:
             tag = "many-groups"
         out.append(("scale:" + tag, e))
     return out
+
+
+def heavy_sums(rng: random.Random, count: int) -> list[tuple[str, object]]:
+    """sums of 8-22 terms, each a product/quotient of several non-trivial factors over five variables:
+    their symbolic partials take several hundred to a few thousand reduction steps"""
+    names = ["a", "b", "c", "d", "k"]
+    V = {n: X.Variable(n) for n in names}
+    C = X.Constant
+    out = []
+
+    def factor():
+        v, w = V[rng.choice(names)], V[rng.choice(names)]
+        k = rng.randrange(8)
+        if k == 0:
+            return X.Sine(X.Multiply(v, w))
+        if k == 1:
+            return X.Exponential(v)
+        if k == 2:
+            return X.Add(C(float(rng.randint(1, 4))), X.NthPower(w, 2))
+        if k == 3:
+            return X.Cosine(X.Add(v, w))
+        if k == 4:
+            return X.NthPower(v, rng.choice([2, 3]))
+        if k == 5:
+            return X.Logarithm(X.Add(C(2.0), X.NthPower(v, 2)))
+        if k == 6:
+            return v
+        return X.Minus(v, C(0.5))
+
+    for _ in range(count):
+        terms = []
+        for _ in range(rng.randint(8, 22)):
+            num = X.Multiply(*[factor() for _ in range(rng.randint(2, 3))])
+            terms.append(X.Divide(num, X.Add(C(float(rng.randint(1, 5))), X.NthPower(V[rng.choice(names)], 2))) if rng.random() < 0.6 else num)
+        if rng.random() < 0.5:
+            e = terms[0]
+            for t in terms[1:]:
+                e = e + t
+        else:
+            e = X.Add(*terms)
+        out.append(("heavy", e))
+    return out
